@@ -233,6 +233,23 @@ fn entries(w: &World, roles: &Roles) -> Vec<Entry> {
             must_succeed_for_holder: true,
             at_time: None,
         });
+        // a key nobody has written yet: the first round of a key is as privileged as any later one
+        es.push(Entry {
+            name: "feed.AppendPrice#newkey",
+            target: Target::Feed(v),
+            msg: jv(&feed::ExecuteMsg::AppendPrice { key: "NEVERWRITTEN".into(), price: u(obs.v[v].spot.max(1)), timestamp: obs.time }),
+            allowed: vec![roles.feed_owner[v].clone()],
+            must_succeed_for_holder: true,
+            at_time: None,
+        });
+        es.push(Entry {
+            name: "feed.AppendMultiplePrice#newkey",
+            target: Target::Feed(v),
+            msg: jv(&feed::ExecuteMsg::AppendMultiplePrice { key: "NEVERWRITTEN2".into(), prices: vec![u(obs.v[v].spot.max(1)), u(obs.v[v].spot.max(1) + 1)], timestamps: vec![obs.time.saturating_sub(1), obs.time] }),
+            allowed: vec![roles.feed_owner[v].clone()],
+            must_succeed_for_holder: true,
+            at_time: None,
+        });
         es.push(Entry {
             name: "feed.UpdateOwner",
             target: Target::Feed(v),
